@@ -136,6 +136,12 @@ def run(ctx):
         while len(ocases) < (300 if ctx.quick() else 4000):
             prog = ctx.rng.choice(OPROGS); th = [str(i) for i in range(prog.count('/') + 1)]
             ocases.append((prog, bursty(ctx.rng, th, flush=ctx.rng.choice([0.0, 0.05, 0.3]))))
+        # several consumers through the mutex-protected API: one locked dequeue frozen at each of its steps (it holds the queue's dequeue lock) while another consumer
+        # splices / dequeues through the locked API - which must wait for the lock
+        for prog, ne in (('LL/SL/E0E1E2', 3), ('LLL/S/E0E1', 2), ('LS/LL/E0E1E2E3', 4), ('SL/SL/E0E1E2', 3)):
+            for k in range(0, 22 if ctx.quick() else 40):
+                ocases.append((prog, '>2' * ne + 'c' * 8 + '0a' * k + '>1>1' + '0a' * 40 + '1b' * 40))
+                ocases.append((prog, '>2' * (ne - 1) + '2' * 3 + '0a' * k + '>1>1' + '0a' * 40 + '1b' * 40))      # the last enqueue suspended between its tail exchange and its link store
         corr_schedules(ctx, 'wfcqueue FIFO (non-blocking dequeue, with-state, splice, iteration, empty)', impl, None, ocases, canon_c, oracle=oracle, nontrivial=nontrivial, tail=tail, scenario='scen_wfcq (oracle only)')
     # legacy cds_wfq (static/wfqueue.h): FIFO oracle; standard and plain-store-instrumented builds
     for nm, pl in (('scen_wfq', False), ('scen_wfq_plain', True)):
